@@ -19,7 +19,7 @@ CHECKS = {
     "C03": {"units": [rapid("bcastx", "TestC03", 10000, 100000)]},
     "C04": {"units": [rapid("routinex", "TestC04", 10000, 60000)]},
     "C05": {"units": [rapid("routinex", "TestC05", 8000, 60000)]},
-    "C12": {"units": [rapid("lifox", "TestC12Controlled", 6000, 40000), rapid("lifox", "TestC12Free", 2000, 20000, 16)]},
+    "C12": {"units": [rapid("lifox", "TestC12Controlled", 6000, 25000), rapid("lifox", "TestC12Free", 2000, 5000, 16)]},
     "C13": {"units": [rapid("racex", "TestC13", 2500, 6000, 16, race=True, shrinktime="5s")]},
     "C14": {"units": [rapid("routinex", "TestC14", 10000, 60000)]},
     "C06": {"units": [rapid("keyedx", "TestC06Keyed", 6000, 40000), rapid("keyedx", "TestC06RefCount", 6000, 40000)]},
